@@ -81,6 +81,32 @@ def hist_jobs(prop, tier, cfg="san"):
     return jobs
 
 
+def recycle_jobs(prop, tier):
+    """E2 with the allocator's address policy set to 'hand a released block out again' (LIFO per byte size) and a non-initial root state; the default policy never repeats an address"""
+    jobs = []
+    pre = "--prefix=b=iota$3;swap(a,b)"
+    if tier == "quick":
+        grid = [(2, 0, 3, pre), (2, 0, 3, None), (1, 1, 3, pre)]
+    else:
+        grid = [(d, e, 4, px) for d in (1, 2, 3) for e in (0, 1) for px in (None, pre)]
+    for (d, e, depth, px) in grid:
+        jobs.append(Job("histmc", cfg="san", defs=["-DHM_D=%d" % d, "-DHM_ELEM=%d" % e, "-DHM_RECYCLE"], args=["--tier=" + tier, "--prop=" + prop, "--depth=%d" % depth] + ([px] if px else [])))
+    return jobs
+
+
+def reext_jobs(tier):
+    """C06: complete (old,new) extents grid per dimensionality (reextmc)"""
+    jobs = []
+    for d in (1, 2, 3, 4):
+        n = 1 if tier == "quick" or d < 4 else 4
+        for sh in range(n):
+            jobs.append(Job("reextmc", cfg="san", defs=["-DRX_D=%d" % d], args=["--tier=" + tier, "--shard=%d" % sh, "--nshards=%d" % n]))
+    return jobs
+
+
+RECYCLE_RULE = (" The address an allocation returns is an environment answer owned by the harness: besides the default policy (no address is ever handed out twice within a history) the search is repeated with "
+                "the policy 'the most recently released block of the same byte size is handed out again', from the initial state and from a non-initial root (a filled, b empty), so that stale-pointer identity tests are reachable. "
+                "The search key contains the hidden state of both arrays (all stored layout fields, base pointer null / live block / other), so value-equal pools with different hidden state are separate states.")
 HIST_RULE = ("breadth-first search over operation histories of a pool of two owning arrays a, b (multi::array<T,D,ledger allocator>) plus an immutable source array; state = history replayed on fresh "
              "objects, deduplicated by (reference-model value of both slots, allocator ids, implementation strides); alphabet (76-106 letters per rank): a=b, b=a, a=std::move(b), b=std::move(a), a=a, "
              "swap(a,b), a.swap(b), copy/move/default construction, a=+b, element writes, every constructor form x shape menu (incl. empty shapes), a=view / Arr(view) / a=+view / a=const view for a menu of "
@@ -97,21 +123,25 @@ CHECKS["C04"] = dict(
     claim=("Every history of construct/copy/move/assign/swap/decay/element-write/reextent operations up to depth 3 (thorough 4-5) over the alphabet is executed on real arrays (D=1..4, tracked and trivial element "
            "types) and compared slot by slot with the value model after every step, plus storage disjointness, self-assignment and move/swap no-copy/no-allocation counters. Independence of copies is decided by "
            "continuing the history (element writes after copies), not by pointer inequality alone."),
-    jobs=lambda tier: hist_jobs("C04", tier), rule=HIST_RULE + " Reported for C04: violations of transitions whose last operation is a construct/copy/move/assign/swap/decay/element-write letter.", assumptions=HIST_ASSUME,
+    jobs=lambda tier: hist_jobs("C04", tier) + recycle_jobs("C04", tier), rule=HIST_RULE + RECYCLE_RULE + " Reported for C04: violations of transitions whose last operation is a construct/copy/move/assign/swap/decay/element-write letter.", assumptions=HIST_ASSUME,
 )
 CHECKS["C06"] = dict(
     technique="explicit-state BFS over operation histories; index-space intersection reference model for every (old,new) extents pair reachable",
     title="reextent / clear / reshape / assign", level="model_checking", engine="E2",
     claim=("reextent(x), reextent(x,v), rvalue reextent, reshape, assign(first,last), initializer-list assignment, clear and ={} are applied from EVERY state reachable within the depth bound (so for all "
            "(old,new) extents pairs of the shape menu, interleaved with all other mutators) and compared with the index-space intersection model; reextent to the current extents must keep data_elements()."),
-    jobs=lambda tier: hist_jobs("C06", tier), rule=HIST_RULE + " Reported for C06: violations of transitions whose last operation is reextent/reshape/assign/clear/={}/={list}.", assumptions=HIST_ASSUME,
+    jobs=lambda tier: hist_jobs("C06", tier) + reext_jobs(tier), rule=HIST_RULE + " Reported for C06: violations of transitions whose last operation is reextent/reshape/assign/clear/={}/={list}."
+    " reextmc adds the COMPLETE grid of (old,new) index-extension pairs per dimensionality 1..4 (per-dimension menu: empty, sizes 1..3 (1-D: ..5), shifted index bases in 1-D/2-D; D=4 quick: sizes 1..3 + two empty shapes), "
+    "x {reextent(x), reextent(x,fill), std::move(a).reextent(x)} x {int, Q (value-initialisation required), tracked element + ledger allocator}, and every chain old->mid->new in 1-D (2-D in thorough); oracle per "
+    "pair: requested extensions, every index tuple of the intersection keeps its value, all others equal fill / a value-initialised element, same extents keep storage without allocating, live-object count and ledger clean. "
+    "(The rvalue form keeps values only for unchanged extents: the library documents it as the contents-are-going-away form.)", assumptions=HIST_ASSUME,
 )
 CHECKS["C08"] = dict(
     technique="explicit-state BFS over operation histories with live-object registry, per-instance allocation ledger and pre-fill oracle on every transition",
     title="construct once / destroy once / storage returned", level="model_checking", engine="E2",
     claim=("The live-object registry (construct-over-live, use/assign/destroy of a dead object), the allocation ledger (unknown/double/size-mismatched deallocate, outstanding blocks/elements when the pool dies) "
            "and the 0xA5 pre-fill oracle (sizing constructors and reextent must not write trivially-default-constructible elements) are evaluated on every transition of the E2 search over the full alphabet."),
-    jobs=lambda tier: hist_jobs("C08", tier) + alloc_jobs("C08", tier, combos=[(0, 1, 0, 0), (1, 0, 1, 0), (1, 1, 1, 1)]) + serial_hist_jobs("C08", tier), rule=HIST_RULE + " The ledger keeps separate books per allocator instance: the search is repeated with a stateful allocator (three propagation-trait configurations, equal and unequal instances) so that a block released through the wrong instance is visible. Reported for C08: registry/ledger/leak oracles on any transition; for int elements the model holds the allocator's pre-fill pattern for never-written elements.", assumptions=HIST_ASSUME,
+    jobs=lambda tier: hist_jobs("C08", tier) + recycle_jobs("C08", tier) + alloc_jobs("C08", tier, combos=[(0, 1, 0, 0), (1, 0, 1, 0), (1, 1, 1, 1)]) + serial_hist_jobs("C08", tier), rule=HIST_RULE + RECYCLE_RULE + " The ledger keeps separate books per allocator instance: the search is repeated with a stateful allocator (three propagation-trait configurations, equal and unequal instances) so that a block released through the wrong instance is visible. Reported for C08: registry/ledger/leak oracles on any transition; for int elements the model holds the allocator's pre-fill pattern for never-written elements.", assumptions=HIST_ASSUME,
 )
 
 
